@@ -610,10 +610,6 @@ package ggql
 //@   check panic {C03}
 //@   requires recv != nil
 
-//@ func FormErrorsResult
-//@   props C03
-//@   check panic {C03}
-
 //@ func (*uuSchema).Rank
 //@   props C03
 //@   check panic {C03}
@@ -626,18 +622,12 @@ package ggql
 //@ func WriteSDLValue
 //@   props C03
 //@   check panic {C03}
+//@   requires w != nil
 
 //@ func WriteJSONValue
 //@   props C03
 //@   check panic {C03}
-
-//@ func isCollection
-//@   props C03
-//@   check panic {C03}
-
-//@ func elementSep
-//@   props C03
-//@   check panic {C03}
+//@   requires w != nil
 
 //@ func (*VarDef).write
 //@   props C03
